@@ -175,6 +175,18 @@ class FracProxy(object):
             eng.add(fr == W % p)
         return _mk(cells)
 
+    def __round__(self, ndigits=None):
+        # round(frac, n): frac is known through V = round(frac * 10**8) only, so the result is W / 10**n for any integer W compatible
+        # with some frac in [(V - 1/2), (V + 1/2)] / 10**8 (same sound over-approximation as '%.Nf'); candidates are replayed
+        if not isinstance(ndigits, int) or isinstance(ndigits, bool) or not (0 <= ndigits < 8):
+            raise E.Unsupported('round(frac, %r) on the fractional-seconds proxy' % (ndigits,))
+        eng = E.cur()
+        W = z3.Int(eng.fresh_name('Wr'))
+        eng.overapprox_used = True
+        k = 10 ** (8 - ndigits)
+        eng.add(z3.And(W >= 0, 2 * W * k - 2 * self.V <= k + 1, 2 * self.V - 2 * W * k <= k + 1))
+        return SymFloat(z3.ToReal(W) / z3.RealVal(10 ** ndigits))
+
     def __getattr__(self, name):
         raise E.Unsupported('operation %s on the fractional-seconds proxy' % name)
 
@@ -272,6 +284,21 @@ def body_fmt(form, prec):
         if len(fields) > 1:
             eng.check(val_term(fields[0]) > 0, lab)
         return {'inputs': inputs, 'observe': obs, 'result': r}
+    return body
+
+
+def body_fmt_prime(prec):
+    """the earlier call of the history clause: a duration below one minute (S in 0..59, any V), no clauses of its own"""
+    def body(R):
+        utils = sys.modules['athlib.utils']
+        eng = E.cur()
+        S = symint('pS', 0, 59)
+        V = z3.Int(eng.fresh_name('pV'))
+        eng.add(z3.And(V >= 0, V <= 10 ** 8))
+        inputs = {'S': S, 'V': SymInt(V), 'prec': prec}
+        R.partial = {'inputs': inputs}
+        utils.format_seconds_as_time(DurProxy(S, V), prec)
+        return {'inputs': inputs}
     return body
 
 
@@ -377,6 +404,12 @@ def worker(job):
         elif kind == 'fmt':
             R.func = 'athlib.format_seconds_as_time'
             R.explore(body_fmt(*job[1:-1]), 'format_seconds_as_time %s prec=%d' % job[1:-1])
+        elif kind == 'fmt-history':
+            # the same clauses after an earlier format_seconds_as_time call with a duration of its own (fresh symbolic S, V) at
+            # precision job[3]: the text must not depend on what was formatted before (memo tables, scratch attributes)
+            R.func = 'athlib.format_seconds_as_time'
+            R.prime_body = body_fmt_prime(job[3])
+            R.explore(body_fmt(job[1], job[2]), 'format_seconds_as_time %s prec=%d after a call with prec=%d' % job[1:-1])
         elif kind == 'hms':
             R.func = 'athlib.parse_hms'
             R.explore(body_hms(job[1]), 'parse_hms %r' % (job[1],))
@@ -408,6 +441,9 @@ def run(chk, only=None):
     for form in ('frac8', 'int'):
         for prec in range(0, 4):
             jobs.append(('fmt', form, prec, budget))
+    for prec in range(0, 4):
+        for pprec in ([prec] if quick else range(0, 4)):
+            jobs.append(('fmt-history', 'frac8', prec, pprec, budget))
     fshapes = [(1, None), (2, None), (3, None), (2, 0), (1, 1), (2, 2), (2, 3)]
     if quick:
         fshapes = [(1, None), (2, None), (3, None), (2, 2), (1, 1)]
@@ -433,6 +469,7 @@ def run(chk, only=None):
                  'repr(float) is NOT modelled: a change that routes a symbolic float through repr()/str() makes the run inconclusive (exit 2)']
     chk.bounds = {'round_up_str_num': 'integer part 0-4 digits (leading zeros included), optional point, 0-7 fraction digits, prec 0-5, maxDP default 5',
                   'format_seconds_as_time': 'seconds = k/1000 for 0 <= k < 3.6e8, any integer < 360000, any real in [0, 360000); prec 0-3',
+                  'format_seconds_as_time_history': '%d (prec, earlier prec) pairs: one earlier format_seconds_as_time call with a duration of its own below one minute (fresh symbolic S in 0..59, any V), then the clauses' % sum(1 for j in jobs if j[0] == 'fmt-history'),
                   'parse_hms_history': '%d (shape, sibling shape) pairs: parse_hms on a text of the sibling shape (own symbolic digits) first, then the clauses' % n_hist,
                   'parse_hms': '1-3 fields of 1-3 digits with optional fraction of 0-3 digits, each separator : or ; (mixed included); arbitrary texts of up to %d cells over %r' % (4 if quick else 6, ARB_ALPHABET)}
     chk.outside = ['durations of 100 h and more; negative durations; non-ASCII digits; exponent / inf / nan / underscore texts']
